@@ -95,8 +95,8 @@ class Scene:
             for v in G.nodes:
                 if rng.random() < 0.3:
                     self.own_color[v] = "".join(rng.choice("0123456789ABCDEF") for _ in range(6))
-            for v, col in self.own_color.items():
-                self.gnode[v].add_feature("color", col)
+        for v, col in self.own_color.items():
+            self.gnode[v].add_feature("color", col)
         self.expected_color = {}
         for v in G.nodes:
             col = None
